@@ -9,6 +9,8 @@ type reuseCase struct {
 var reuseTable = map[string][]reuseCase{
 	"C03": {
 		{"Add", "", []string{"2,2", "2"}, []string{"3", "1"}},
+		{"Mul", "", []string{"2", "2"}, []string{"2:f64", "2:f64"}},
+		{"Less", "", []string{"2:f64", "2:f64"}, []string{"2", "1"}},
 		{"Sub", "", []string{"2", "2,2"}, []string{"2,1,2", "2"}},
 		{"Mul", "", []string{"2,2", "2,2"}, []string{"", "2"}},
 		{"Div", "", []string{"2,2", "2"}, []string{"2", "2"}},
@@ -19,6 +21,8 @@ var reuseTable = map[string][]reuseCase{
 	},
 	"C04": {
 		{"MatMul", "", []string{"2,3", "3,2"}, []string{"2,2,3", "3"}},
+		{"MatMul", "", []string{"2,2", "2,2"}, []string{"2,2:f64", "2,2:f64"}},
+		{"Gemm", "", []string{"2,2:f64", "2,2:f64", "2:f64"}, []string{"2,2", "2,2", "2"}},
 		{"MatMul", "", []string{"3", "3"}, []string{"2,3", "2,3,2"}},
 		{"Gemm", "transB=1", []string{"2,3", "2,3", "2"}, []string{"1,3", "2,3", "1,2"}},
 		{"Gemm", "alpha=2;beta=3", []string{"2,2", "2,2", "2,2"}, []string{"1,2", "2,2", "2"}},
@@ -64,6 +68,13 @@ var reuseTable = map[string][]reuseCase{
 		{"LogSoftmax", "axis=-2", []string{"2,2"}, []string{"2,2,1"}},
 	},
 	"C10": {
+		// the other float type on the same instance
+		{"Cosh", "", []string{"2"}, []string{"2:f64"}}, {"Sinh", "", []string{"2:f64"}, []string{"2"}}, {"Sin", "", []string{"2"}, []string{"2:f64"}},
+		{"Cos", "", []string{"2:f64"}, []string{"2"}}, {"Tan", "", []string{"2"}, []string{"2:f64"}}, {"Asin", "", []string{"2"}, []string{"2:f64"}},
+		{"Acos", "", []string{"2:f64"}, []string{"2"}}, {"Atan", "", []string{"2"}, []string{"2:f64"}}, {"Asinh", "", []string{"2:f64"}, []string{"2"}},
+		{"Acosh", "", []string{"2"}, []string{"2:f64"}}, {"Atanh", "", []string{"2"}, []string{"2:f64"}}, {"Tanh", "", []string{"2"}, []string{"2:f64"}},
+		{"Sigmoid", "", []string{"2:f64"}, []string{"2"}}, {"Relu", "", []string{"2"}, []string{"2:f64"}}, {"Abs", "", []string{"2:f64"}, []string{"2"}},
+		{"PRelu", "", []string{"2", "2"}, []string{"2:f64", "2:f64"}},
 		{"Relu", "", []string{"2,2"}, []string{"3"}},
 		{"PRelu", "", []string{"2,2", "2"}, []string{"3", "1"}},
 		{"Sigmoid", "", []string{"2"}, []string{"2,2"}},
@@ -101,8 +112,49 @@ func reuseJobs(prop string) []Job {
 
 const reuseBound = "operator instances have no memory: one initialised instance applied to input set A, then B (another rank / geometry), then A again, and twice to the same tensor objects; every result compared with a fresh instance's (errors included), all float/bool elements symbolic (exact real arithmetic)"
 
+// operators with optional attributes: some of their jobs are repeated with the attribute list re-spelled
+var respellOps = map[string]bool{"ArgMax": true, "ReduceMax": true, "ReduceMin": true, "Gemm": true, "Conv": true, "GRU": true, "LSTM": true,
+	"Flatten": true, "Softmax": true, "LogSoftmax": true, "Gather": true}
+
+// respellJobs: for each such operator, the first few jobs of the plan are repeated with "attr_order" set.
+func respellJobs(p *Plan) []Job {
+	var out []Job
+	count := map[string]int{}
+	for _, j := range p.Jobs {
+		if len(j.Harness) < 10 || j.Harness[:10] != "opset13.H_" || j.Harness == "opset13.H_reuse" {
+			continue
+		}
+		op, _ := j.Case["op"].(string)
+		switch j.Harness {
+		case "opset13.H_C05":
+			op = "Conv"
+		case "opset13.H_C04_gemm":
+			op = "Gemm"
+		case "opset13.H_C09_argmax":
+			op = "ArgMax"
+		}
+		if !respellOps[op] || count[op] >= 6 {
+			continue
+		}
+		count[op]++
+		for _, mode := range []string{"reversed", "defaults-first"} {
+			c := map[string]interface{}{}
+			for k, x := range j.Case {
+				c[k] = x
+			}
+			c["attr_order"] = mode
+			out = append(out, Job{Harness: j.Harness, Case: c, Ring: j.Ring})
+		}
+	}
+	return out
+}
+
 // AddSharedJobs appends the job families shared by several properties to a plan.
 func AddSharedJobs(p *Plan) {
+	if js := respellJobs(p); len(js) > 0 {
+		p.Jobs = append(p.Jobs, js...)
+		p.Bounds = append(p.Bounds, "attribute spelling: for operators with optional attributes, the first six cases of each are repeated with the attribute list reversed and with the omitted attributes spelled out (default values) in front")
+	}
 	if js := reuseJobs(p.Property); len(js) > 0 {
 		p.Jobs = append(p.Jobs, js...)
 		p.Bounds = append(p.Bounds, reuseBound)
